@@ -230,9 +230,84 @@ func judge(c Case) (vs []evid.Violation) {
 	if err != nil || back.R.Cmp(sig.R) != 0 || back.S.Cmp(sig.S) != 0 || back.V.Cmp(sig.V) != 0 {
 		vs = append(vs, evid.V("compact-roundtrip", "DecodeCompactRSV(CompactRSV()) differs (err=%v)", err))
 	}
+	// the compact form after the V convention was changed: 65 bytes R||S||(V mod 256) that decode again
+	for _, conv := range []string{"eip155", "eip2930"} {
+		cs := &secp256k1.SignatureData{V: new(big.Int).Set(sig.V), R: new(big.Int).Set(sig.R), S: new(big.Int).Set(sig.S)}
+		if conv == "eip155" {
+			cs.UpdateEIP155(c.ChainID)
+			if cs.V.Cmp(valid[2]) != 0 {
+				vs = append(vs, evid.V("update-eip155", "UpdateEIP155(%d) gives V=%s, want %s", c.ChainID, cs.V, valid[2]))
+			}
+		} else {
+			cs.UpdateEIP2930()
+			if cs.V.Cmp(valid[1]) != 0 {
+				vs = append(vs, evid.V("update-eip2930", "UpdateEIP2930 gives V=%s, want %s", cs.V, valid[1]))
+			}
+		}
+		cb := cs.CompactRSV()
+		wantC := make([]byte, 65)
+		sig.R.FillBytes(wantC[0:32])
+		sig.S.FillBytes(wantC[32:64])
+		wantC[64] = byte(new(big.Int).And(cs.V, big.NewInt(0xff)).Int64())
+		if !bytes.Equal(cb, wantC) {
+			vs = append(vs, evid.V("compact-layout-"+conv, "CompactRSV %x, want R(32)||S(32)||low byte of V %x", cb, wantC))
+		}
+		dec, derr := secp256k1.DecodeCompactRSV(context.Background(), cb)
+		if derr != nil {
+			vs = append(vs, evid.V("compact-roundtrip-"+conv, "DecodeCompactRSV rejects the compact form of a valid signature (V=%s, byte %d): %v", cs.V, cb[64], derr))
+		} else if dec.R.Cmp(sig.R) != 0 || dec.S.Cmp(sig.S) != 0 || dec.V.Cmp(big.NewInt(int64(cb[64]))) != 0 {
+			vs = append(vs, evid.V("compact-roundtrip-"+conv, "DecodeCompactRSV(CompactRSV()) differs: V=%s R=%x S=%x", dec.V, dec.R, dec.S))
+		}
+	}
 	for _, l := range []int{0, 64, 66} {
 		if _, err := secp256k1.DecodeCompactRSV(context.Background(), make([]byte, l)); err == nil {
 			vs = append(vs, evid.V("compact-length", "DecodeCompactRSV accepts %d bytes", l))
+		}
+	}
+	return vs
+}
+
+// ---- kind "history": a sequence of signings; results handed out earlier are scribbled over
+// in place (the API returns pointers to big.Int), later signatures must be unaffected, and
+// every earlier signature must still be what it was right after its call.
+
+type SeqCase struct {
+	Steps []Case `json:"steps"`
+}
+
+func judgeSeq(c SeqCase) (vs []evid.Violation) {
+	type kept struct {
+		sig  *secp256k1.SignatureData
+		snap string
+	}
+	snapOf := func(s *secp256k1.SignatureData) string { return fmt.Sprintf("V=%s R=%x S=%x", s.V, s.R, s.S) }
+	var keep []kept
+	for i, st := range c.Steps {
+		sg, jv := signCase(st) // full validity of this signature (V in {27,28}, ranges, low-S, verifies, parity)
+		if len(jv) > 0 {
+			return append(vs, evid.V("history:"+jv[0].Clause, "step %d (after %d earlier signings, the even ones scribbled over): %s", i, i, jv[0].Detail))
+		}
+		if sg == nil {
+			return vs
+		}
+		keep = append(keep, kept{sig: sg.sig, snap: snapOf(sg.sig)})
+		if i%2 == 0 {
+			// the caller tries other values in place on the result it was given
+			sg.sig.V.SetInt64(29 + int64(i))
+			sg.sig.R.SetInt64(1)
+			sg.sig.S.Add(sg.sig.S, big.NewInt(1))
+			keep[len(keep)-1].snap = snapOf(sg.sig)
+		}
+	}
+	for i, k := range keep {
+		if snapOf(k.sig) != k.snap {
+			vs = append(vs, evid.V("result-stable-across-calls", "the signature returned by step %d reads %s after later signings, it was %s", i, snapOf(k.sig), k.snap))
+		}
+	}
+	// determinism across the history: every step once more
+	for i, st := range c.Steps {
+		if _, jv := signCase(st); len(jv) > 0 {
+			vs = append(vs, evid.V("history-end:"+jv[0].Clause, "step %d signed again at the end: %s", i, jv[0].Detail))
 		}
 	}
 	return vs
@@ -477,6 +552,22 @@ func TestCheck(t *testing.T) {
 		k.Check(rt, c, nt, cl...)
 	})
 
+	kSeq := evid.NewKind(rec, "history", judgeSeq)
+	rec.Rapid(t, "history", rec.N(300, 3000), func(rt *rapid.T) {
+		n := rapid.IntRange(2, 6).Draw(rt, "steps")
+		var sc SeqCase
+		for i := 0; i < n; i++ {
+			c := Case{Key: genKey(rt), Direct: rapid.Bool().Draw(rt, "direct"), ChainID: genChainID(rt)}
+			if c.Direct {
+				c.Msg = gen.HexBytes(rt, "digest", 32)
+			} else {
+				c.Msg = gen.HexBytes(rt, "msg", gen.Len(rt, "msg.len", 256))
+			}
+			sc.Steps = append(sc.Steps, c)
+		}
+		kSeq.Check(rt, sc, true, "history")
+	})
+
 	// the same cases from many goroutines at once: verdicts must not depend on concurrent callers
 	t.Run("concurrent", func(t *testing.T) {
 		for lo := 0; lo+8 <= len(pool); lo += 24 {
@@ -533,5 +624,6 @@ func TestReplay(t *testing.T) {
 	_ = k
 	evid.NewKind(rec, "vsweep", judgeSweep)
 	evid.NewKind(rec, "concurrent", evid.ParallelJudge(judge))
+	evid.NewKind(rec, "history", judgeSeq)
 	rec.Replay(t)
 }
